@@ -39,9 +39,9 @@ theorem sysSearchRulesAnc_single (sys : Sys) (c : Ctx) (n : String) (ev : Obj) (
     rw [hname]
     exact LocP.amGet_amSet_self sys n l
   unfold sysSearchRulesAnc ancestorFuel
-  have hdo : doAncestors (sys.length + 2) sys n now (fun _ => locSearchRules c ev now) [] =
+  have hdo : doAncestors (sys.length + 2) sys n now (tagged (fun _ => locSearchRules c ev now)) [] =
       (((sys.put l).put (locSearchRules c ev now l).1),
-        (locSearchRules c ev now l).2.map (fun a => [a])) := by
+        (locSearchRules c ev now l).2.map (fun a => [(n, a)])) := by
     rw [show sys.length + 2 = (sys.length + 1) + 1 from rfl]
     unfold doAncestors
     simp only [List.contains_nil, Bool.false_eq_true, if_false]
@@ -55,18 +55,19 @@ theorem sysSearchRulesAnc_single (sys : Sys) (c : Ctx) (n : String) (ev : Obj) (
     simp only
     unfold Sys.at
     rw [hget1]
-    simp only
+    simp only [tagged, LM.bind]
     rcases hr : locSearchRules c ev now l with ⟨l', r⟩
     cases r with
     | error e => simp [Except.map]
-    | ok a => simp [Except.map]
+    | ok a => simp [Except.map, LM.pure]
   rw [hdo]
   rcases hr : locSearchRules c ev now l with ⟨l', r⟩
   cases r with
   | error e => simp [Except.map]
   | ok a =>
     have := hnd a (by rw [hr])
-    simp only [Except.map, List.flatten_cons, List.flatten_nil, List.append_nil]
+    simp only [Except.map, firstVisits, List.contains_nil, Bool.false_eq_true, if_false, List.flatten_cons, List.flatten_nil,
+      List.append_nil]
     rw [eraseDups_of_nodup this]
     simp
 
